@@ -1,7 +1,7 @@
 """C20: pybigtools array routines -- `missing` taint, division guards, sibling agreement, clamping / oob fill, per-base form."""
 from __future__ import annotations
 import re
-from ..astq import Node, up, strip, strip_cast, walk_no_nested_fn, walk, calls, binding_before
+from ..astq import Node, up, strip, strip_cast, walk_no_nested_fn, walk, calls, binding_before, cond_ancestors
 from ..rules.layout import origin
 
 PY = "pybigtools/src/lib.rs"
@@ -37,6 +37,8 @@ def ob_missing_taint(ctx, res):
             elif p.k == "expr_stmt" and p.parent is not None and p.parent.k == "block" and p.parent.parent is not None and p.parent.parent.k == "if" and \
                     ".is_nan()" in up(p.parent.parent["cond"]):
                 ok = True
+            elif p.k == "assign" and child.pkey == "r" and any(a.k == "if" and ".is_nan()" in up(a["cond"]) and key == "then" for a, key in cond_ancestors(p)):
+                ok = True       # `if x.is_nan() { *x = missing; }`
             elif p.k == "call" and child.pkey == "args":
                 cal = up(p["func"]).split("::")[-1]
                 idx = [i for i, a in enumerate(p["args"]) if a is child]
@@ -62,53 +64,28 @@ def ob_missing_taint(ctx, res):
 
 
 def ob_division_guards(ctx, res):
-    """C20-N1"""
+    """C20-N1: a finished bin that received no covered base is written as `missing`, not as 0/0 - decided by evaluating every flush site for the mean
+    with a zero coverage count (the division by the count must be guarded)"""
+    from ..rules.interp import NotPure
     n = 0
-    for name in ["to_array_bins", "to_array_zoom", "to_entry_array_bins", "to_entry_array_zoom"]:
-        fn = ctx.ast.fn(PY, name)
-        for x in walk_no_nested_fn(fn.body):
-            if not (x.k == "binary" and x["op"] == "/"):
-                continue
-            den = strip_cast(x["r"])
-            dt = up(den)
-            # only divisions by a covered-base count (closure / tuple-bound `c`)
-            if dt not in ("c",):
-                continue
-            arm = x.parent
-            in_mean = False
-            while arm is not None and isinstance(arm, Node):
-                if arm.k == "arm" and up(arm["pat"]).endswith("Summary::Mean"):
-                    in_mean = True
-                arm = arm.parent
-            if not in_mean:
-                continue
+    for name in BIN_ROUTINES:
+        fn = ctx.ast.fn(PY, name, inline=True)
+        for r in _flush_roots(fn):
             n += 1
-            # guard forms: enclosing closure is the argument of `.map(..)` whose receiver chain contains `.then(` after `.any(|v| *v > 0)`
-            # or `.filter(|(c, _)| *c > 0)` / `(c > 0).then(..)` / enclosing `if c > 0`
-            cl = x.parent
-            while cl is not None and cl.k != "closure":
-                cl = cl.parent
-            guarded = False
-            if cl is not None and cl.parent is not None and cl.parent.k == "mcall":
-                chain = up(cl.parent["recv"])
-                if re.search(r"\.any\(\|\w+\| \*\w+ > 0\)\.then\(", chain) or re.search(r"\.filter\(\|[^|]*\| \*?\w+(\.0)? > 0\)", chain):
-                    guarded = True
-            t = x.parent
-            while t is not None and isinstance(t, Node) and not guarded:
-                if t.k == "if" and re.search(r"\bc > 0\b|\*c > 0", up(t["cond"])):
-                    guarded = True
-                if t.k == "mcall" and t["method"] == "then" and re.search(r"\bc > 0\b", up(t["recv"])):
-                    guarded = True
-                t = t.parent
-            if not guarded:
-                res.fail("divGuard/%s" % name, x,
-                         "mean `%s` divides by a covered-base count that can be 0 (a bin created for an interval can receive no overlap when the "
-                         "fractional bin edges are truncated): the bin becomes NaN for finite data and finite `missing`" % up(x))
+            try:
+                bad = [x for x in _eval_flush(ctx, fn, r, entry="entry" in name) if x[0] == "Mean" and isinstance(x[2], float) and (x[2] != x[2] or x[2] in (float("inf"), float("-inf")))]
+            except NotPure as e:
+                res.undecided("divGuard/%s" % name, r, "flush of a finished bin not evaluated (%s)" % e)
+                continue
+            if bad:
+                res.fail("divGuard/%s" % name, r,
+                         "the mean of a bin with %s divides by a covered-base count of 0 and writes %s (a bin created for an item can receive no overlap): "
+                         "the bin becomes NaN for finite data and finite `missing`" % (bad[0][1], bad[0][2]))
             else:
-                res.ok(x, "%s: division by the covered count is guarded (count > 0)" % name)
+                res.ok(r, "%s: mean of a bin without covered bases is `missing` (division by the count guarded)" % name)
     res.count("mean_divisions", n)
-    if n < 8:
-        res.fail("divGuard/floor", PY, "only %d mean divisions found in the four bin routines (expected 8: two flush sites each)" % n)
+    if n < 4:
+        res.fail("divGuard/floor", PY, "only %d flush sites found in the four bin routines (expected two each)" % n)
 
 
 def _sq(s):
@@ -295,6 +272,13 @@ def ob_bin_routines(ctx, res):
                      "an item with no base inside the range (range queries also return items that only touch it, e.g. starting exactly at the range end) must be skipped before "
                      "its bins are computed: otherwise its first bin index is `bins`, a bin that does not exist is queued and v[bins] is written (panic)")
             continue
+        wraps = [x for x in walk_no_nested_fn(fn.body) if x.k == "cast" and isinstance(x.get("ty"), str) and re.fullmatch(r"u(8|16|32|64|size)", x["ty"].strip())
+                 and strip(x["e"]).k == "path" and origin(fn, x["e"]) in (S, E)]
+        if wraps:
+            res.fail("binRoutine/%s/signed-range" % name, wraps[0],
+                     "`%s` casts a bound of the requested range to an unsigned type: the range may start (or end) below 0 (out-of-bounds portions are part of the request), "
+                     "and a negative bound wraps to ~4.29e9, so items are clamped against the wrong position" % up(wraps[0]))
+            continue
         fl = [x for x in walk_no_nested_fn(body) if x.k == "binary" and x["op"] == "/" and ("bin_size" in up(x))]
         if fl:
             res.fail("binRoutine/%s/float" % name, fl[0], "bin indices or spans are still computed in floating point")
@@ -439,43 +423,181 @@ def ob_oob_fill(ctx, res):
     res.ok(fn, "fill_out_of_bounds: for every small (start, end, length, bins <= len) exactly the bins holding a base before 0 or at/after `length` are set to oob, all indices in range (%d cases)" % n)
 
 
+MISSING = 777.25
+NAN = float("nan")
+
+
+def _list_method(it):
+    """iterator algebra over Python lists for the flush expressions (filter / map / reduce / any / sum / then ...)"""
+    from ..rules.interp import NotPure
+
+    def method(m, recv, args):
+        if isinstance(recv, list):
+            if m in ("into_iter", "iter", "copied", "cloned", "iter_mut") and not args:
+                return list(recv)
+            if m == "filter" and len(args) == 1:
+                return [x for x in recv if it[0].apply_closure(args[0], [x])]
+            if m == "map" and len(args) == 1:
+                return [it[0].apply_closure(args[0], [x]) for x in recv]
+            if m == "any" and len(args) == 1:
+                return any(it[0].apply_closure(args[0], [x]) for x in recv)
+            if m == "all" and len(args) == 1:
+                return all(it[0].apply_closure(args[0], [x]) for x in recv)
+            if m == "reduce" and len(args) == 1:
+                if not recv:
+                    return None
+                acc = recv[0]
+                for x in recv[1:]:
+                    acc = it[0].apply_closure(args[0], [acc, x])
+                return ("some", acc)
+            if m == "fold" and len(args) == 2:
+                acc = args[0]
+                for x in recv:
+                    acc = it[0].apply_closure(args[1], [acc, x])
+                return acc
+            if m == "sum" and not args:
+                return sum(recv)
+            if m in ("len", "count") and not args:
+                return len(recv)
+            if m == "is_empty" and not args:
+                return not recv
+        if isinstance(recv, bool) and m == "then" and len(args) == 1:
+            return ("some", it[0].apply_closure(args[0], [])) if recv else None
+        if isinstance(recv, bool) and m == "then_some" and len(args) == 1:
+            return ("some", args[0]) if recv else None
+        if m == "and_then" and len(args) == 1 and (recv is None or (isinstance(recv, tuple) and recv[0] == "some")):
+            return None if recv is None else it[0].apply_closure(args[0], [recv[1]])
+        if m == "filter" and len(args) == 1 and (recv is None or (isinstance(recv, tuple) and recv[0] == "some")):
+            return recv if recv is not None and it[0].apply_closure(args[0], [recv[1]]) else None
+        if m == "is_nan" and not args and isinstance(recv, (int, float)):
+            return recv != recv
+        raise NotPure("method %s on %r" % (m, type(recv).__name__))
+    return method
+
+
+def _fbinop(op, a, b):
+    from ..rules.interp import NotPure
+    if isinstance(a, (int, float)) and isinstance(b, (int, float)) and not isinstance(a, bool) and not isinstance(b, bool):
+        if op == "+":
+            return a + b
+        if op == "-":
+            return a - b
+        if op == "*":
+            return a * b
+        if op == "/":
+            if b == 0:
+                return NAN if a == 0 or a != a else float("inf")
+            return a / b
+    raise NotPure("arithmetic %s" % op)
+
+
+def _flush_roots(fn):
+    """statements that write the output array at a finished bin: `v[bin] = ..` assignments, grouped under their enclosing `match summary` when there is one"""
+    out = []
+    vname = fn.params[-1][0]
+    for x in walk_no_nested_fn(fn.body):
+        if x.k == "assign" and strip(x["l"]).k == "index" and up(strip(strip(x["l"])["base"])) == vname:
+            root = x
+            y = x.parent
+            while y is not None and isinstance(y, Node) and y.k != "fn":
+                if y.k == "match" and up(strip(y["scrut"])) == "summary":
+                    root = y
+                    break
+                if y.k in ("for", "while", "loop", "closure"):
+                    break
+                y = y.parent
+            if not any(r is root for r in out):
+                out.append(root)
+    return out
+
+
+def _eval_flush(ctx, fn, root, entry):
+    """-> list of (summary, case description, got, want) mismatches, or raises NotPure"""
+    from ..rules.interp import Interp, NotPure
+    idx = strip([x for x in walk_no_nested_fn(root) if x.k == "assign" and strip(x["l"]).k == "index"][0]["l"])
+    binn = up(strip(idx["index"]))
+    b = binding_before(fn, binn, root) if re.fullmatch(r"\w+", binn) else None
+    if b is None or b[0] != "let" or b[1].get("init") is None or not re.fullmatch(r"(\w+)\.0", up(strip(b[1]["init"]))):
+        raise NotPure("the bin index `%s` is not `let bin = <popped element>.0`" % binn)
+    X = up(strip(b[1]["init"]))[:-2]
+    vname = fn.params[-1][0]
+    if entry:
+        cases = [("no base covered", ([0, 0, 0], [NAN, NAN, NAN]), {"Min": MISSING, "Max": MISSING, "Mean": MISSING}),
+                 ("bases covered by 2, -, 5 entries", ([1, 0, 1], [2.0, NAN, 5.0]), {"Min": 2.0, "Max": 5.0, "Mean": 3.5}),
+                 ("every base covered by 1, 3, 2 entries", ([1, 1, 1], [1.0, 3.0, 2.0]), {"Min": 1.0, "Max": 3.0, "Mean": 2.0})]
+    else:
+        cases = [("nothing overlapped the bin", None, {"Min": MISSING, "Max": MISSING, "Mean": MISSING}),
+                 ("4 covered bases, accumulated 6.0", ("some", (4, 6.0)), {"Min": 6.0, "Max": 6.0, "Mean": 1.5}),
+                 ("accumulator present but 0 covered bases", ("some", (0, 0.0)), {"Mean": MISSING})]
+    bad = []
+    for sm in ("Min", "Max", "Mean"):
+        for desc, acc, want in cases:
+            if sm not in want:
+                continue
+            arr = {"__ref": True, "__arr": {}}
+            front = (0, 0, 3) + (tuple(list(x) for x in acc) if entry else (acc,))
+            holder = [None]
+            itp = Interp(ctx.ast, PY, extern={"None": None, "floats": True, "binop": _fbinop, "method": _list_method(holder),
+                                              "path": lambda p_: NAN if p_.endswith("NAN") else (_ for _ in ()).throw(NotPure("free name " + p_))})
+            holder[0] = itp
+            env = {X: front, binn: 0, "missing": MISSING, "summary": ("variant", sm, []), vname: arr}
+            itp.run_stmts([_as_stmt(root)], env)
+            got = arr["__arr"].get(0, "<not written>")
+            w = want[sm]
+            if not (isinstance(got, (int, float)) and abs(got - w) < 1e-9):
+                bad.append((sm, desc, got, w))
+    return bad
+
+
+def _as_stmt(n):
+    from ..astq import _mknode
+    return _mknode({"k": "expr_stmt", "e": n, "semi": True})
+
+
 def ob_bin_siblings(ctx, res):
-    """C20-S1"""
+    """C20-S1: every flush of a finished bin (in-loop and final, all four routines) is evaluated for the three statistics on representative accumulators;
+    the bin bookkeeping of sibling routines is compared in normal form (a difference there is reported as undecided, not as a violation)"""
+    from ..rules.interp import NotPure
+    from ..astq import upn
+    for name in BIN_ROUTINES:
+        fn = ctx.ast.fn(PY, name, inline=True)
+        roots = _flush_roots(fn)
+        if len(roots) < 2:
+            res.fail("binSiblings/%s/flush-sites" % name, fn, "finished bins must be written both inside the item loop and after it; found %d flush site(s)" % len(roots))
+            continue
+        ok = True
+        for r in roots:
+            try:
+                bad = _eval_flush(ctx, fn, r, entry="entry" in name)
+            except NotPure as e:
+                res.undecided("binSiblings/%s/flush" % name, r, "flush of a finished bin not evaluated (%s)" % e)
+                ok = False
+                continue
+            if bad:
+                sm, desc, got, want = bad[0]
+                res.fail("binSiblings/%s/flush" % name, r, "%s flush, statistic %s, bin with %s: writes %s, required %s%s" % (
+                    name, sm, desc, got, "`missing`" if want == MISSING else want, " (NaN for finite data)" if isinstance(got, float) and got != got else ""))
+                ok = False
+        if ok:
+            res.ok(fn, "%s: %d flush sites evaluated for min/max/mean on uncovered, partly and fully covered bins: covered statistic or `missing`, never NaN" % (name, len(roots)))
     for a, b in (("to_array_bins", "to_array_zoom"), ("to_entry_array_bins", "to_entry_array_zoom")):
         fa, fb = ctx.ast.fn(PY, a), ctx.ast.fn(PY, b)
-        sa, sb = _flush_sites(fa), _flush_sites(fb)
-        if len(sa) != 2 or len(sb) != 2:
-            res.fail("binSiblings/%s/flush-sites" % a, fa, "expected two flush blocks (in-loop and final) per routine; found %d/%d" % (len(sa), len(sb)))
-            continue
-        ta, tb = [up(x) for x in sa], [up(x) for x in sb]
-        if ta[0] != ta[1]:
-            res.fail("binSiblings/%s/own-flushes" % a, sa[1], "the in-loop and the final flush of %s differ" % a)
-        if tb[0] != tb[1]:
-            res.fail("binSiblings/%s/own-flushes" % b, sb[1], "the in-loop and the final flush of %s differ" % b)
-        if ta[0] != tb[0]:
-            res.fail("binSiblings/%s-%s/flush" % (a, b), sb[0], "%s and %s flush a finished bin differently" % (a, b))
-        # bin bookkeeping (R-SIB): the statements computing bin_size, the clamped interval, its bin range and each bin's edges,
-        # the pop-finished-bins loop and the early `break` are compared between the two siblings
+
         def book(fn):
             out = {}
             for x in walk_no_nested_fn(fn.body):
                 if x.k == "let" and x["pat"].k == "p_ident" and x["pat"]["name"] in ("interval_start", "interval_end", "bin_start", "bin_end") and x.get("init") is not None:
-                    out.setdefault(x["pat"]["name"], []).append(up(x["init"]))
-                if x.k == "while" and "front_mut()" in up(x["cond"]):
-                    out.setdefault("pop-loop-head", []).append(up(x["cond"]) + " " + up(x["body"])[:60])
+                    out.setdefault(x["pat"]["name"], []).append(upn(fn, x["init"]))
                 if x.k == "if" and "break" in up(x["then"]) and "interval_end" in up(x["cond"]):
-                    out.setdefault("stop", []).append(up(x["cond"]))
-                if x.k == "mcall" and x["method"] == "fill":
-                    out.setdefault("fill", []).append(up(x))
+                    out.setdefault("stop", []).append(upn(fn, x["cond"]))
             return out
         ba, bb = book(fa), book(fb)
-        for k in ("interval_start", "interval_end", "bin_start", "bin_end", "pop-loop-head", "stop", "fill"):
-            if not ba.get(k) or not bb.get(k):
-                res.fail("binSiblings/%s-%s/%s-missing" % (a, b, k), fa if not ba.get(k) else fb, "bin bookkeeping step `%s` not found" % k)
-            elif ba[k] != bb[k]:
-                res.fail("binSiblings/%s-%s/%s" % (a, b, k), fb, "bin bookkeeping step `%s` differs between %s and %s: %s vs %s" % (k, a, b, ba[k], bb[k]))
-        if not [v for v in res.violations if a in v["role"]]:
-            res.ok(fa, "%s / %s: same bin bookkeeping (size, clamp, range, pop, edges, stop) and identical flush blocks (in-loop = final)" % (a, b))
+        diff = [k for k in ("interval_start", "interval_end", "bin_start", "bin_end", "stop") if ba.get(k) != bb.get(k)]
+        if diff:
+            res.undecided("binSiblings/%s-%s/bookkeeping" % (a, b), fb, "bin bookkeeping steps %s are spelled differently in %s and %s (compared in normal form); "
+                                                                        "their agreement is not decided here (C20-B2 decides each routine on its own)" % (diff, a, b))
+        else:
+            res.ok(fa, "%s / %s: same bin bookkeeping (clamp, bin range, bin edges, stop) in normal form" % (a, b))
 
 
 def ob_drivers(ctx, res):
@@ -523,44 +645,78 @@ def ob_drivers(ctx, res):
             i = 0
             while i < min(len(a), len(b)) and a[i] == b[i]:
                 i += 1
-            res.fail("drivers/siblings", PY, "intervals_to_array and entries_to_array differ beyond the routine names near `%s` vs `%s`" % (a[max(0, i - 40):i + 40], b[max(0, i - 40):i + 40]))
+            res.undecided("drivers/siblings", PY, "intervals_to_array and entries_to_array are spelled differently beyond the routine names near `%s` vs `%s`: their agreement is not decided "
+                                                  "(each driver's clauses are decided on its own above)" % (a[max(0, i - 40):i + 40], b[max(0, i - 40):i + 40]))
         else:
             res.ok(PY, "intervals_to_array and entries_to_array are identical modulo the bigWig/bigBed routine names")
 
 
 def ob_per_base(ctx, res):
-    """C20-A1"""
-    for name, add in (("to_array", "interval.value as f64"), ("to_entry_array", "1.0")):
-        fn = ctx.ast.fn(PY, name)
-        t = up(fn.body)
-        if "v.fill(f64::NAN);" not in t:
+    """C20-A1: per-base routines - NaN seed, slot range decided by R-EQUIV, per-slot update and final NaN -> missing replacement in normal form"""
+    from ..rules import equiv as EQ
+    from ..astq import upn
+    for name, add_re, addtxt in (("to_array", r"\w+\.value as f64", "value"), ("to_entry_array", r"1\.0", "+1 per entry")):
+        fn = ctx.ast.fn(PY, name, inline=True)
+        vname = fn.params[-1][0]
+        fills = [c for c in calls(fn.body, method="fill") if up(strip(c["recv"])) == vname]
+        if not any(up(strip(c["args"][0])).endswith("NAN") for c in fills):
             res.fail("perBase/%s/seed" % name, fn, "the per-base array must be NaN-seeded (so that data and `missing` cannot be confused)")
             continue
-        lets = {x["pat"]["name"]: x for x in walk_no_nested_fn(fn.body) if x.k == "let" and x["pat"].k == "p_ident" and x["pat"]["name"] in ("interval_start", "interval_end")}
-        if set(lets) != {"interval_start", "interval_end"}:
-            res.fail("perBase/%s/index" % name, fn, "index bounds not found")
-            continue
-        ts, te = _sq(up(lets["interval_start"]["init"])), _sq(up(lets["interval_end"]["init"]))
-        raw = ts == "interval.startasi32-startasusize" and te == "interval.endasi32-startasusize"
-        clamped = ts in ("interval.startasi32.maxstart-startasusize",) and te in ("interval.endasi32.minend-startasusize",)
-        if name == "to_entry_array" and not clamped:
-            res.fail("perBase/%s/clamp" % name, lets["interval_start"],
-                     "bigBed range queries return whole entries (also ones that only touch the range): the slots must be max(entry.start, start) - start .. min(entry.end, end) - start; "
-                     "unclamped, an entry reaching past the range end indexes out of bounds and one starting before the range start wraps to an empty loop (the entry is dropped); "
-                     "got `%s` / `%s`" % (up(lets["interval_start"]["init"]), up(lets["interval_end"]["init"])))
-            continue
-        if name == "to_array" and not (raw or clamped):
-            res.fail("perBase/%s/index" % name, fn, "bases value.start-start .. value.end-start must be filled (bigWig queries clip values to the range: C03)")
-            continue
-        lp = [x for x in walk_no_nested_fn(fn.body) if x.k == "for" and _sq(up(strip(x["iter"]))) == "interval_start..interval_end"]
+        lp = [x for x in walk_no_nested_fn(fn.body) if x.k == "for" and strip(x["iter"]).k == "range" and strip(x["iter"]).get("from") is not None and strip(x["iter"]).get("to") is not None]
         if len(lp) != 1:
-            res.fail("perBase/%s/loop" % name, fn, "every slot interval_start..interval_end must be visited")
+            res.undecided("perBase/%s/loop" % name, fn, "expected one `for i in a..b` loop over the slots of an item; found %d" % len(lp))
             continue
-        want = "*v.index_mut(i) = if val.is_nan() {%s} else {val + %s};" % (add, add)
-        if want not in t:
-            res.fail("perBase/%s/update" % name, fn, "per-base update must be `%s`" % want)
+        rng = strip(lp[0]["iter"])
+        roles = {"IS": r"\w+\.start", "IE": r"\w+\.end", "S": re.escape(fn.params[0][0]), "E": re.escape(fn.params[1][0])}
+        pre = lambda e: e["S"] < e["E"] and e["IS"] < e["IE"]
+        clamp_lo, clamp_hi = (lambda e: max(e["IS"], e["S"]) - e["S"]), (lambda e: min(e["IE"], e["E"]) - e["S"])
+        qlo = EQ.equiv(fn, rng["from"], roles, clamp_lo, domain=range(0, 4), pre=pre)
+        qhi = EQ.equiv(fn, rng["to"], roles, clamp_hi, domain=range(0, 4), pre=pre)
+        raw = False
+        if name == "to_array" and (qlo[0] == "differs" or qhi[0] == "differs"):
+            # bigWig queries clip values to the range (C03), so value.start - start .. value.end - start is in range as it stands
+            inside = lambda e: pre(e) and e["S"] <= e["IS"] and e["IE"] <= e["E"]
+            qlo = EQ.equiv(fn, rng["from"], roles, lambda e: e["IS"] - e["S"], domain=range(0, 4), pre=inside)
+            qhi = EQ.equiv(fn, rng["to"], roles, lambda e: e["IE"] - e["S"], domain=range(0, 4), pre=inside)
+            raw = True
+        if qlo[0] == "differs" or qhi[0] == "differs":
+            q = qlo if qlo[0] == "differs" else qhi
+            if name == "to_entry_array":
+                res.fail("perBase/%s/clamp" % name, lp[0],
+                         "bigBed range queries return whole entries (also ones that only touch the range): the slots must be max(entry.start, start) - start .. min(entry.end, end) - start; "
+                         "unclamped, an entry reaching past the range end indexes out of bounds and one starting before the range start wraps to an empty loop (the entry is dropped); "
+                         "`%s..%s` gives %s, required %s, for %s" % (up(rng["from"]), up(rng["to"]), q[2], q[3], q[1]))
+            else:
+                res.fail("perBase/%s/index" % name, lp[0], "bases value.start-start .. value.end-start must be filled; `%s..%s` gives %s, required %s, for %s" % (up(rng["from"]), up(rng["to"]), q[2], q[3], q[1]))
             continue
-        if "for val in v.iter_mut() {*val = if val.is_nan() {missing} else {*val};}" not in t:
-            res.fail("perBase/%s/missing" % name, fn, "NaN (no data) must be replaced by `missing` at the end")
+        if qlo[0] == "unknown" or qhi[0] == "unknown":
+            res.undecided("perBase/%s/index" % name, lp[0], "slot range not decided (%s)" % (qlo[1] if qlo[0] == "unknown" else qhi[1]))
+        # per-slot update
+        ivar = up(lp[0]["pat"])
+        slot = (r"\*?%s\.index_mut\(%s\)|%s\[%s\]" % (vname, ivar, vname, ivar))
+        asg = [x for x in walk_no_nested_fn(lp[0]["body"]) if x.k == "assign" and re.fullmatch(slot, up(strip(x["l"])))]
+        if len(asg) != 1:
+            res.undecided("perBase/%s/update" % name, lp[0], "expected one assignment to the slot `%s[%s]` per visited base; found %d" % (vname, ivar, len(asg)))
+        else:
+            t = upn(fn, asg[0]["r"])
+            cur = r"(?:\w+|%s)" % slot
+            ok = re.fullmatch(r"if (%s)\.is_nan\(\) \{(%s)\} else \{(?:\1 \+ \2|\2 \+ \1)\}" % (cur, add_re), t) or \
+                re.fullmatch(r"if !(%s)\.is_nan\(\) \{(?:\1 \+ (%s)|(%s) \+ \1)\} else \{(?:\2|\3)\}" % (cur, add_re, add_re), t)
+            if not ok:
+                res.fail("perBase/%s/update" % name, asg[0], "per-base update must be `slot = if slot.is_nan() { %s } else { slot + %s }`; got `%s`" % (addtxt, addtxt, t[:140]))
+                continue
+        # NaN -> missing at the end
+        fin = [x for x in walk_no_nested_fn(fn.body) if x.k == "for" and up(strip(x["iter"])) in ("%s.iter_mut()" % vname, "&mut %s" % vname) and x.order > lp[0].order]
+        if len(fin) != 1:
+            res.fail("perBase/%s/missing" % name, fn, "NaN (no data) must be replaced by `missing` in a final pass over the array")
             continue
-        res.ok(fn, "%s: NaN-seeded; covered base <- %s (summed on overlap)%s; uncovered -> missing" % (name, "value" if name == "to_array" else "+1 per entry", "" if raw else ", item clamped to the range"))
+        vn = up(fin[0]["pat"])
+        bt = upn(fn, fin[0]["body"])
+        forms = ("{*%s = if %s.is_nan() {missing} else {*%s};}" % (vn, vn, vn), "{if %s.is_nan() {*%s = missing;}}" % (vn, vn), "{*%s = if !%s.is_nan() {*%s} else {missing};}" % (vn, vn, vn))
+        if bt.replace(";}", "}").replace(" ", "") not in [f.replace(";}", "}").replace(" ", "") for f in forms]:
+            if "missing" in bt and "is_nan" in bt:
+                res.undecided("perBase/%s/missing" % name, fin[0], "final pass `%s` is not one of the recognised NaN -> missing replacements" % bt[:100])
+            else:
+                res.fail("perBase/%s/missing" % name, fin[0], "NaN (no data) must be replaced by `missing` at the end; final pass is `%s`" % bt[:100])
+                continue
+        res.ok(fn, "%s: NaN-seeded; covered base <- %s (summed on overlap)%s; uncovered -> missing" % (name, addtxt, "" if raw else ", item clamped to the range"))
